@@ -11,7 +11,7 @@ RULE = ("exhaustive over list shapes: ALL (affine-pair list, prepared-pair list)
         "first evaluation, left as they are before the second), through pairing_sum (C) and pairing_product (C++); expected value = product of the single "
         "pairings = e(G1,G2)^(sum of exponent products) from the Python model; plus prepared_pairing vs pairing on all alphabet pairs; plus LONG lists: the "
         "pair count takes every boundary value 5..9, 15..17, 31..33, 63..65, 100 (pure affine, pure prepared, half/half; with identity pairs in the last, first, an early and the middle position and as a run). "
-        "state = (list, evaluation number); distinct by construction; non-trivial = at least one pair without an identity")
+        "plus EVERY pair count 5..130 as a pure affine and a pure prepared list (thorough: every split with both parts <= 24). state = (list, evaluation number); distinct by construction; non-trivial = at least one pair without an identity")
 ASSUMPTIONS = ["single pairings are decided by C01; e(G1,G2) and its powers come from vlib/ref.py", "portable back ends run every 4th list (the Miller-loop code is shared)"]
 CONFIGS = ["asm", "c64", "c32"]
 
@@ -117,6 +117,25 @@ def long_lists(tier):
     return out
 
 
+ALL_LENGTHS = 130
+
+
+def every_length(tier):
+    """EVERY pair count 5..130 (not only the neighbours of powers of two), as a pure affine list and as a pure prepared list; thorough: also every
+    split (na, np) with na, np <= 24.  Internal batch sizes, table sizes and counters of any width up to 7 bits are crossed whatever their value."""
+    pat = [("P1", "Q1"), ("P2", "Q1"), ("P1", "Q2"), ("P2", "Q2")]
+    out = []
+    for n in range(5, ALL_LENGTHS + 1):
+        base = tuple(pat[i % 4] for i in range(n))
+        out.append((base, ()))
+        out.append(((), base))
+    if tier == "thorough":
+        for na in range(1, 25):
+            for npp in range(1, 25):
+                out.append((tuple(pat[i % 4] for i in range(na)), tuple(pat[(i + 1) % 4] for i in range(npp))))
+    return out
+
+
 def lists(n):
     out = []
     for total in range(n + 1):
@@ -137,6 +156,8 @@ def shards(ctx):
             out.append({"sub": "lists", "cfg": cfg, "part": k, "parts": 16 if cfg == "asm" else 4})
         for k in range(4):
             out.append({"sub": "long", "cfg": cfg, "part": k, "parts": 4})
+    for k in range(16):
+        out.append({"sub": "every-length", "cfg": "asm", "part": k, "parts": 16})
     return out
 
 
@@ -155,6 +176,9 @@ def run_shard(ctx, shard):
         all_lists = long_lists(ctx.tier)
         if cfg != "asm":
             all_lists = all_lists[::3]
+    elif shard["sub"] == "every-length":
+        all_lists = every_length(ctx.tier)
+        # longest first within a shard's stride keeps the shards balanced
     else:
         all_lists = lists(n)
         if cfg != "asm":
@@ -165,7 +189,7 @@ def run_shard(ctx, shard):
         case = {"sub": "list", "cfg": cfg, "seed": ctx.seed, "affine": [list(x) for x in a], "prepared": [list(x) for x in p]}
         msgs = eval_case(case)
         nontriv = any(x != "O" and y != "O" for x, y in list(a) + list(p))
-        kind = "len%s:%s" % (len(a) + len(p) if shard["sub"] != "long" else ">4", "mixed" if a and p else ("affine" if a else ("prepared" if p else "empty")))
+        kind = "len%s:%s" % (len(a) + len(p) if shard["sub"] not in ("long", "every-length") else ">4", "mixed" if a and p else ("affine" if a else ("prepared" if p else "empty")))
         ctx.ok(nontriv, kind, n=4)
         ctx.sample(case, limit=1)
         if msgs:
